@@ -222,7 +222,7 @@ func (ent *entityNode) acceptState(visitor FileVisitor) error {
 	}
 
 	state := &schema_j5pb.Object{
-		Name: strcase.ToCamel(entity.Name + "State"),
+		Name: ent.componentName("State"),
 		Entity: &schema_j5pb.EntityObject{
 			Entity: ent.name,
 			Part:   schema_j5pb.EntityPart_STATE,
@@ -257,7 +257,7 @@ func (ent *entityNode) acceptEventOneof(visitor FileVisitor) error {
 
 	entity := ent.Schema
 	eventOneof := &schema_j5pb.Oneof{
-		Name:       strcase.ToCamel(entity.Name + "EventType"),
+		Name:       ent.componentName("EventType"),
 		Properties: make([]*schema_j5pb.ObjectProperty, 0, len(entity.Events)),
 	}
 
@@ -311,13 +311,12 @@ func (ent *entityNode) acceptEventOneof(visitor FileVisitor) error {
 }
 
 func (ent *entityNode) acceptEvent(visitor FileVisitor) error {
-	entity := ent.Schema
 
 	eventKeys := ent.innerRef("Keys")
 	eventKeys.GetObject().Flatten = true
 
 	eventObject := &schema_j5pb.Object{
-		Name: strcase.ToCamel(entity.Name + "Event"),
+		Name: ent.componentName("Event"),
 		Entity: &schema_j5pb.EntityObject{
 			Entity: ent.name,
 			Part:   schema_j5pb.EntityPart_EVENT,
